@@ -151,7 +151,7 @@ def run(ctx):
             for i, (k, v) in enumerate(texts["command"]):
                 env["GIT_CONFIG_KEY_%d" % i] = k
                 env["GIT_CONFIG_VALUE_%d" % i] = v
-            p = subprocess.run(["git", "--no-replace-objects", "-c", "advice.graftFileDeprecated=false", "config", "--list", "-z"], cwd=cwd, env=env, stdout=subprocess.PIPE, stderr=subprocess.PIPE)
+            p = subprocess.run(["git", "--no-replace-objects", "-c", "core.useReplaceRefs=false", "-c", "advice.graftFileDeprecated=false", "config", "--list", "-z"], cwd=cwd, env=env, stdout=subprocess.PIPE, stderr=subprocess.PIPE)
             if p.returncode != 0:
                 continue    # the generated file is not valid for git: not an input of the property
             raw = p.stdout
